@@ -281,8 +281,14 @@ pub fn run_replay(prop: &str, seed: u64, input: impl BufRead, mut log: Option<st
                         Err(p) => (vec![Mismatch { field: "panic", what: format!("panic in code under test: {}", panic_msg(p)) }], vec![]),
                     };
                     if !mm.is_empty() || !drift.is_empty() {
+                        // separate budgets: results with a mismatch this property owns must never be crowded out by
+                        // mismatches other properties own or by drift-only results
+                        let class = if mm.iter().any(|m| owns(prop, m.field)) { 0 } else if !mm.is_empty() { 1 } else { 2 };
                         let mut res = results.lock().unwrap();
-                        if res.len() < 200 { res.push((e.c, e.h.clone(), mm, drift, serde_json::from_str(&inner).unwrap_or(Value::Null))); }
+                        let same = res.iter().filter(|x| (if x.2.iter().any(|m| owns(prop, m.field)) { 0 } else if !x.2.is_empty() { 1 } else { 2 }) == class).count();
+                        if same < [200, 200, 50][class] {
+                            res.push((e.c, e.h.clone(), mm, drift, serde_json::from_str(&inner).unwrap_or(Value::Null)));
+                        }
                     }
                 }
                 let mut c = counts.lock().unwrap();
